@@ -7,6 +7,7 @@ package main
 
 import (
 	"bytes"
+	"context"
 	"encoding/csv"
 	"encoding/json"
 	"fmt"
@@ -15,6 +16,7 @@ import (
 	"path/filepath"
 	"strconv"
 	"strings"
+	"time"
 
 	"verifharness/lib"
 )
@@ -176,8 +178,14 @@ func coca() string {
 	return bin
 }
 
+// One coca command. A command that does not finish within cmdTimeout ends the run with "no verdict"
+// (exit 2, DESIGN 2.3: a timeout is never a violation).
+const cmdTimeout = 180 * time.Second
+
 func runCoca(cwd, tmp string, args ...string) runResult {
-	cmd := exec.Command(coca(), args...)
+	ctx, cancel := context.WithTimeout(context.Background(), cmdTimeout)
+	defer cancel()
+	cmd := exec.CommandContext(ctx, coca(), args...)
 	cmd.Dir = cwd
 	cmd.Env = append(os.Environ(), "TMPDIR="+tmp, "HOME="+tmp)
 	var so, se bytes.Buffer
@@ -185,6 +193,10 @@ func runCoca(cwd, tmp string, args ...string) runResult {
 	cmd.Stderr = &se
 	err := cmd.Run()
 	r := runResult{stdout: so.String(), stderr: se.String()}
+	if ctx.Err() == context.DeadlineExceeded {
+		fmt.Fprintln(os.Stderr, "harness: coca", strings.Join(args, " "), "did not finish within", cmdTimeout)
+		os.Exit(2)
+	}
 	if err != nil {
 		if ee, ok := err.(*exec.ExitError); ok {
 			r.exit = ee.ExitCode()
@@ -474,16 +486,9 @@ func one(raw json.RawMessage) interface{} {
 	return rec
 }
 
-func abnormal(raw json.RawMessage, timeout bool, stderr string) interface{} {
-	var c Case
-	json.Unmarshal(raw, &c)
-	normalize(&c)
-	o := emptyObs()
-	o.Panic = true
-	o.ByDir.Note = short(stderr, 300)
-	return Record{Case: c.Case, Input: c.Input, Facts: Facts{Root: c.Input.Root}, Observed: o}
-}
-
+// The code under test runs in separate coca processes, so a case process of this harness that dies or
+// exceeds its (generous) time limit is trouble of the harness or the machine, never an observation of
+// coca: no Abnormal handler => the run ends with "no verdict" (exit 2) instead of a made-up record.
 func main() {
-	lib.Main(lib.Handler{One: one, Gen: gen, Abnormal: abnormal})
+	lib.Main(lib.Handler{One: one, Gen: gen, CaseTimeout: 10 * time.Minute})
 }
